@@ -22,13 +22,11 @@ def arithBody (c : Char) : Bool :=
 def arithLast (c : Char) : Bool := c = '.' || isDigitA c || c = ' ' || c = ')'
 def arithOp (c : Char) : Bool := c = '+' || c = '-' || c = '*' || c = '/' || c = '^'
 
-/-- `^[ 0-9\.\(\)\+\-\*/\^]+[\.0-9 \)]$` -/
-def reArithShape : Str → Bool
-  | [] => false
-  | [_] => false
-  | c :: d :: rest => arithBody c && (match rest with
-      | [] => arithLast d
-      | _ => reArithShape (d :: rest))
+/-- `^[ 0-9\.\(\)\+\-\*/\^]+[\.0-9 \)]$`: a non-empty run of body characters, then one closing character -/
+def reArithShape (s : Str) : Bool :=
+  match s.getLast? with
+  | none => false
+  | some last => !s.dropLast.isEmpty && s.dropLast.all arithBody && arithLast last
 
 def isArithmetic (l : Str) : Bool :=
   l.any isDigitA && l.any arithOp && reArithShape l
